@@ -673,6 +673,12 @@ def main(tier, replay=None):
     if replay:
         return do_replay(run, replay)
     proof_ok = run.proof_stage()
+    # second tie: the beam statistics / Twiss getters / aperture mask are re-translated from REPO's source and proved equal to the
+    # hand-written models (Gen/StatsGenEquiv.v)
+    import translate_stage
+    tr_stats = translate_stage.translator_obligation_stats(run)
+    if tr_stats["status"] != "ok":
+        run.notes.append("translator obligation (stats): " + json.dumps(translate_stage.replay_fields_stats(tr_stats))[:600])
     if not proof_ok:
         run.notes.append(run.proof_problem)
     ok_aux, log = common.coq_build("theories/Beam/MomCavityCorr.vo")
@@ -737,6 +743,9 @@ def main(tier, replay=None):
     elif cfail:
         run.violation({"kind": "cavity_model", "broken": "Beam/MomCavity.v (model of Cavity._track_beam) disagrees with the implementation",
                        "case": meta[cfail[0]], "goal": goals[cfail[0]][0], "error": cerrs.get(cfail[0], "")[-400:]}, no_input=True)
+    elif tr_stats["status"] != "ok":
+        # the source no longer translates to the proved model and none of this run's oracles found a failing input
+        run.violation(translate_stage.replay_fields_stats(tr_stats), no_input=True)
     elif not proof_ok:
         run.violation({"kind": "proof", "broken": run.proof_problem}, no_input=True)
     if not run.violations and hasattr(run, "first_impl_exc"):
